@@ -58,13 +58,11 @@ def configs(tier, seed):
         cfgs.append(dict(kind='stft_dead', name='stft_dead L' + nm, L=L, S=S, style=style, kaldi=kaldi, K=K,
                          NMAX=(2 * L + S if tier == 'quick' else min(3 * L, 20))))
         cfgs.append(dict(kind='stft_guard', name='stft_guard L' + nm, L=L, S=S, style=style, kaldi=kaldi))
-    sgrid = [(2, 3, 6), (2, 4, 8)] if tier == 'quick' else [(2, 3, 6), (2, 3, 8), (2, 4, 8), (3, 4, 9)]
-    for (S, M, D) in sgrid:
-        for style in ('causal', 'centered'):
-            nm = 'S%d M%d D%d %s' % (S, M, D, style)
-            cfgs.append(dict(kind='si_reset', name='si_reset ' + nm, S=S, M=M, D=D, style=style, NMAX=6))
-            cfgs.append(dict(kind='si_dead', name='si_dead ' + nm, S=S, M=M, D=D, style=style, NMAX=8 if tier == 'quick' else 11))
-            cfgs.append(dict(kind='si_guard', name='si_guard ' + nm, S=S, M=M, D=D, style=style))
+    for (S, M, D, style, tr) in si.si_grid(tier):
+        nm = 'S%d M%d D%d %s' % (S, M, D, style)
+        cfgs.append(dict(kind='si_reset', name='si_reset ' + nm, S=S, M=M, D=D, style=style, trans=tr, NMAX=6))
+        cfgs.append(dict(kind='si_dead', name='si_dead ' + nm, S=S, M=M, D=D, style=style, trans=tr, NMAX=8 if tier == 'quick' else 11))
+        cfgs.append(dict(kind='si_guard', name='si_guard ' + nm, S=S, M=M, D=D, style=style, trans=tr))
     cfgs.append(dict(kind='ast', name='ast no-state-writes in _compute_frame'))
     return cfgs
 
@@ -328,7 +326,7 @@ def run_si_reset(cfg):
         c.inputs = [N, c0, nch]
         c.assume(N >= 0, N <= NMAX, c0 >= 0, c0 <= N, nch >= 0, nch <= 2)
         c.assume(z3.If(nch == 0, z3.And(N == 0, c0 == 0), z3.If(nch == 1, c0 == N, True)))
-        o = si.mk(ns, S, M, D, style, 1, True, False)
+        o = si.mk(ns, S, M, D, style, 1, True, False, trans=cfg.get('trans'))
         nk = SInt(nch).__index__()
         bad = []
         try:
@@ -343,7 +341,7 @@ def run_si_reset(cfg):
             r2 = o.finalize()
             bad.append(_z(r2.shape[0]) != 0)
             bad.append(z3.BoolVal(bool(o.started)))
-            known = set(_scalars(si.mk(ns, S, M, D, style, 1, True, False)))
+            known = set(_scalars(si.mk(ns, S, M, D, style, 1, True, False, trans=cfg.get('trans'))))
             extra = set(_scalars(o)) - known
             bad.append(z3.BoolVal(bool(extra)))
         except Exception as e:
@@ -387,7 +385,7 @@ def run_si_dead(cfg):
         N, c0 = z3.Int('N'), z3.Int('c0')
         c.inputs = [N, c0]
         c.assume(N >= 0, N <= NMAX, c0 >= 0, c0 <= N)
-        a = si.mk(ns, S, M, D, style, 1, True, False)
+        a = si.mk(ns, S, M, D, style, 1, True, False, trans=cfg.get('trans'))
         # arbitrary post-finalize state: stale counters, stale dtype, junk buffers
         xr, yr, sk = z3.Int('stale_x_rem'), z3.Int('stale_y_rem'), z3.Int('stale_skip')
         c.assume(xr >= 0, xr <= D, yr >= 0, yr <= 3 * S, sk >= 0, sk <= M)
@@ -397,7 +395,7 @@ def run_si_dead(cfg):
         JA3 = z3.Function('staleA3', si.I, si.I, si.I, si.R)
         a._x_buf = ND.fresh((D,), lambda idx: JA1(*idx), 'f8')
         a._y_buf = ND.fresh(a._y_buf.shape, lambda idx: JA3(*idx), 'f8')
-        b = si.mk(ns, S, M, D, style, 1, True, False)
+        b = si.mk(ns, S, M, D, style, 1, True, False, trans=cfg.get('trans'))
         ra, rb = [], []
         try:
             for o, rr in ((a, ra), (b, rb)):
@@ -449,7 +447,7 @@ def run_si_guard(cfg):
 
     def body():
         c = Ctx.cur
-        o = si.mk(ns, S, M, D, style, 1, True, False)
+        o = si.mk(ns, S, M, D, style, 1, True, False, trans=cfg.get('trans'))
         o._started = True
         xr, yr = z3.Int('x_rem'), z3.Int('y_rem')
         c.assume(xr >= 0, xr < D, yr >= 0, yr < 2 * S)
